@@ -40,6 +40,14 @@
 (* dirty option, a normal or an initial (collector-less) run, a corrupted  *)
 (* stored file of the TA point (fatal failure of the run).                 *)
 (*                                                                         *)
+(* LastAttempt and the clock.  store::Run::new takes `started` with         *)
+(* sub-second precision, a LastAttempt time is written to the file in whole *)
+(* seconds (utils/binio.rs:336).  `when >= update_start` (store.rs:1096) is *)
+(* therefore true for a record written in this run only if a second         *)
+(* boundary was crossed between the start of the run and the attempt.  The  *)
+(* run configuration carries that as `tick` (one flag per run).  Such a     *)
+(* record holds no manifest; C40 says nothing about it.                     *)
+(*                                                                         *)
 (* Variant: "as_code" = the pinned code.  The others are seeded faults the *)
 (* invariants must reject (the driver asserts that):                       *)
 (*   "mut_expiry"  retain keeps a stored manifest iff it HAS expired       *)
@@ -60,6 +68,7 @@ CONSTANTS NPoints,      \* points 1..NPoints; the TA lists them in this order
           MaxExpire,    \* "time passes" steps per history
           Kinds,        \* subset of {"update", "initial"}
           Corruptions,  \* subset of BOOLEAN: may the TA's stored file be corrupted
+          Ticks,        \* subset of BOOLEAN: does a run cross a wall-clock second boundary (see below)
           Variant
 
 ASSUME Variant \in {"as_code", "mut_expiry", "mut_retain", "mut_dirty", "mut_failed", "mut_touched"}
@@ -92,7 +101,7 @@ VARIABLES
   archVer,
   \* ---- the run
   phase,     \* "env" | "validate" | "cleanup_store" | "cleanup_collector" | "done"
-  cfg,       \* [kind, dirty, down, rdown, corrupt]
+  cfg,       \* [kind, dirty, down, rdown, corrupt, tick]
   outcome,   \* "none" | "ok" | "failed"
   touched,   \* rsync modules load_module was called for in this run (Run::updated)
   touchedN,  \* RRDP repositories tried in this run
@@ -108,7 +117,7 @@ run   == <<phase, cfg, outcome, touched, touchedN, retR, retN, start, pre, clean
 vars  == <<env, cache, run, runs, envN, expN>>
 
 Snap == [st |-> stored, cp |-> copies, ar |-> archives]
-NoCfg == [kind |-> "update", dirty |-> FALSE, down |-> {}, rdown |-> {}, corrupt |-> FALSE]
+NoCfg == [kind |-> "update", dirty |-> FALSE, down |-> {}, rdown |-> {}, corrupt |-> FALSE, tick |-> FALSE]
 
 PubAt(m) == [p \in Points |-> IF home[p].mod = m THEN pver[p] ELSE 0]
 Expired(p, v) == <<p, v>> \in dead
@@ -167,11 +176,11 @@ Expire ==
   /\ expN' = expN + 1
   /\ UNCHANGED <<listed, home, pver, short>>
 
-StartRun(kind, dirty, down, rdown, corrupt) ==
+StartRun(kind, dirty, down, rdown, corrupt, tick) ==
   /\ phase = "env" /\ runs < MaxRuns
   /\ corrupt => taStored
   /\ phase' = "validate"
-  /\ cfg' = [kind |-> kind, dirty |-> dirty, down |-> down, rdown |-> rdown, corrupt |-> corrupt]
+  /\ cfg' = [kind |-> kind, dirty |-> dirty, down |-> down, rdown |-> rdown, corrupt |-> corrupt, tick |-> tick]
   \* store::Run::new takes `started`; LastAttempt marks of earlier runs are older
   /\ stored' = [k \in Keys |-> [stored[k] EXCEPT !.fresh = FALSE]]
   /\ start' = [st |-> stored', cp |-> copies, ar |-> archives]
@@ -225,7 +234,7 @@ ValidateUpdate ==
                       IN IF c # 0 /\ ~Expired(p, c) /\ (cur.st # "ok" \/ c > cur.v)
                            THEN [st |-> "ok", v |-> c, fresh |-> FALSE]
                          ELSE IF cur.st = "ok" THEN cur
-                         ELSE [st |-> "att", v |-> 0, fresh |-> TRUE]
+                         ELSE [st |-> "att", v |-> 0, fresh |-> cfg.tick]
      IN /\ stored' = [k \in Keys |-> IF k[1] \in listed /\ k[2] = home[k[1]]
                                        THEN NewRec(k[1]) ELSE stored[k]]
         /\ copies' = copies \cup fetched \cup {"m0"}
@@ -253,7 +262,7 @@ ValidateInitial ==
          opened == {p \in view : p <= stop}
      IN /\ stored' = [k \in Keys |->
                         IF k[1] \in opened /\ k = K(k[1]) /\ stored[k].st # "ok"
-                          THEN [st |-> "att", v |-> 0, fresh |-> TRUE] ELSE stored[k]]
+                          THEN [st |-> "att", v |-> 0, fresh |-> cfg.tick] ELSE stored[k]]
         /\ AfterProcess(taStored /\ new = {})
   /\ pre' = [st |-> stored', cp |-> copies, ar |-> archives]
   /\ UNCHANGED <<env, taStored, taView, copies, copyVer, archives, archVer, cfg, touched, touchedN,
@@ -309,9 +318,10 @@ EnvNext ==
   \/ Expire
 (* unreachable servers only matter to a run that gets as far as fetching *)
 RunConfigs == {c \in [kind : Kinds, dirty : BOOLEAN, down : SUBSET Modules,
-                      rdown : IF Rrdp THEN SUBSET Modules ELSE {{}}, corrupt : Corruptions] :
-                 (c.corrupt \/ c.kind = "initial") => (c.down = {} /\ c.rdown = {})}
-StartNext == \E c \in RunConfigs : StartRun(c.kind, c.dirty, c.down, c.rdown, c.corrupt)
+                      rdown : IF Rrdp THEN SUBSET Modules ELSE {{}}, corrupt : Corruptions, tick : Ticks] :
+                 /\ (c.corrupt \/ c.kind = "initial") => (c.down = {} /\ c.rdown = {})
+                 /\ c.corrupt => ~c.tick}
+StartNext == \E c \in RunConfigs : StartRun(c.kind, c.dirty, c.down, c.rdown, c.corrupt, c.tick)
 RunNext == ValidateCorrupt \/ ValidateUpdate \/ ValidateInitial \/ CleanupStore \/ CleanupCollector \/ EndRun
 
 Next == EnvNext \/ StartNext \/ RunNext
